@@ -1,3 +1,33 @@
-import Mdsort.Proofs.World
+import Mdsort.Proofs.WorldOwn
+
+/-!
+# C17 - concurrent runs on the same maildirs neither lose nor duplicate messages
+
+Other parties (another mdsort, a mail client) influence a run only through the results of its
+calls.  `runOracle` gives every call an ARBITRARY result, so a statement proved for every result
+function holds under every interleaving with any number of parties.
+-/
+
 namespace Mdsort.Props
+open Mdsort Mdsort.Model
+
+/-- A run never removes and never renames a name that is not its own - the name of the message it
+was given, or a name it created itself with O_CREAT|O_EXCL - and never renames ONTO a name it did
+not create itself: it never replaces a file created by another party and never removes the
+winner's copy. -/
+theorem C17_never_touches_foreign (env : PEnv) (ml : MatchList) (st : ExecSt) (orc : Nat → Call → Res) :
+    let tr := (runOracle orc (matchesExec env ml st) 0 []).2
+    ∀ i c r, tr[i]? = some (c, r) →
+      (∀ d n, c = .unlinkat d n → n ∈ Proofs.ownNames st.ms.name tr i) ∧
+      (∀ d1 n1 d2 n2, c = .renameat d1 n1 d2 n2 → n1 ∈ Proofs.ownNames st.ms.name tr i ∧ n2 ∈ createdNames (tr.take i)) :=
+  Proofs.exec_touches_only_own env ml st orc
+
+/-- A party that loses the race for a message (its rename finds the source gone) reports an error
+for that message; it is never reported as delivered. -/
+theorem C17_loser_reports_error (env : PEnv) (mh : Match) (st : ExecSt) (orc : Nat → Call → Res)
+    (hty : mh.ty = .move ∨ mh.ty = .flag ∨ mh.ty = .flags)
+    (hlost : ∀ i d1 n1 d2 n2, orc i (.renameat d1 n1 d2 n2) = .err "ENOENT") :
+    (runOracle orc (execOne env mh st) 0 []).1.2 = true :=
+  Proofs.lost_race_is_error env mh st orc hty hlost
+
 end Mdsort.Props
